@@ -2,13 +2,19 @@ import Driver.Util
 import RadicaleModel.Fold
 import RadicaleModel.Export
 import RadicaleModel.TextValue
+import RadicaleModel.Charset
 open Lean Radicale
 namespace Driver
 
 /-- {"s":[code points]} → physical lines, what the reader yields for them, `safe`, `isBlank` of the input;
     {"lines":[[…],…]} → what the reader yields for these physical lines -/
 def handleFold (j : Json) : Json :=
-  if getS j "op" == "textvalue" then
+  if getS j "op" == "charset" then
+    -- {"op":"charset","s":chars,"fixed":bool} → the label taken from a Content-Type header
+    match Charset.label (getBool j "fixed") (getStr j "s") with
+    | some l => obj [("label", jStr l)]
+    | none => obj [("label", Json.null)]
+  else if getS j "op" == "textvalue" then
     -- {"op":"textvalue","s":chars} → the elements the value reader yields, and the escaped form of `s`
     let s := getStr j "s"
     obj [("values", Json.arr ((TextValue.readValues s).map jStr).toArray), ("escaped", jStr (TextValue.escape s)),
